@@ -17,8 +17,11 @@ echo "demo output: $(head -c 300 $S.demo.out)"; rm -f $S.demo.out
 if [ "$clean" != "0" ] || [ "$seeded" = "0" ]; then echo "NOT-CONFIRMED"; exit 4; fi
 case "$tests" in *"111 passed"*) ;; *) echo "TESTS-CHANGED"; exit 5;; esac
 cd /verif
+# the evidence file of the unchanged tree must survive a run against a seeded change
+cp evidence/$id.json /tmp/evidence_$id.$$.json 2>/dev/null
 git -C /repo apply $diff
 out=$(timeout 3000 ./check $id 2>&1); rc=$?
 git -C /repo checkout -- .
+[ -f /tmp/evidence_$id.$$.json ] && mv /tmp/evidence_$id.$$.json evidence/$id.json
 echo "CHECK rc=$rc :: $(echo "$out" | grep -E "VIOLATION|KNOWN" | head -2)"
 echo "$out" | tail -1
